@@ -66,7 +66,12 @@ def run_case(case, args):
     res = {"id": case["id"], "expect": case["expect"], "props": props, "ok": True, "msgs": []}
     try:
         try:
-            apply_edits(d, case["edits"])
+            for pf, rev in case.get("patches", []):
+                r = subprocess.run(["patch", "-p1", "-s"] + (["-R"] if rev else []) + ["-i", os.path.join(VERIF, pf)], cwd=d,
+                                   stdout=subprocess.PIPE, stderr=subprocess.STDOUT, text=True)
+                if r.returncode != 0:
+                    raise RuntimeError("patch %s does not apply: %s" % (pf, r.stdout[-300:]))
+            apply_edits(d, case.get("edits", []))
         except RuntimeError as e:
             res["ok"] = False
             res["msgs"].append(str(e))
